@@ -198,6 +198,7 @@ func main() {
 	defer os.RemoveAll(tmp)
 	sf := filepath.Join(tmp, "main.go")
 	os.WriteFile(sf, []byte(src), 0o644)
+	keepStandin("c11_1", src)
 	virt := filepath.Join(opts.Repo, "internal", "zz_verif_c11bounded", "main.go")
 	ov, _ := json.Marshal(map[string]any{"Replace": map[string]string{virt: sf}})
 	ovf := filepath.Join(tmp, "ov.json")
@@ -333,6 +334,7 @@ func main() {
 	defer os.RemoveAll(tmp)
 	sf := filepath.Join(tmp, "main.go")
 	os.WriteFile(sf, []byte(src), 0o644)
+	keepStandin("c11_2", src)
 	virt := filepath.Join(opts.Repo, "internal", "zz_verif_c05bounded", "main.go")
 	ov, _ := json.Marshal(map[string]any{"Replace": map[string]string{virt: sf}})
 	ovf := filepath.Join(tmp, "ov.json")
